@@ -179,6 +179,12 @@ func runC01(rc *RunCtx) {
 			tc.C.Close()
 		})
 		j := jitter(G)
+		// some clients connect and take their time before they send anything: the
+		// server holds whatever it prepared for them meanwhile
+		pre := time.Duration(0)
+		if G.Draw(3) == 0 {
+			pre = time.Duration(1+G.Draw(4)) * time.Millisecond
+		}
 		simrt.GoNamed(fmt.Sprintf("client-%d", k), func() {
 			j()
 			c.connectSeq = simrt.Steps()
@@ -189,6 +195,9 @@ func runC01(rc *RunCtx) {
 				return
 			}
 			c.c = cc
+			if pre > 0 {
+				simrt.Sleep(pre)
+			}
 			if c.kind == 1 {
 				writeSegmented(G, cc, c.raw, 3)
 				cc.CloseWrite()
